@@ -23,6 +23,9 @@ class ConstructorMonitor:
         self.illtyped = 0
         self.armed = False
         self._depth = 0
+        self.recent = []      # (diagram, fingerprint) built during this case
+        self.rechecked = 0
+        self.changed_after_construction = 0
 
     def arm(self):
         from discopy import monoidal
@@ -59,6 +62,11 @@ class ConstructorMonitor:
                 ok, why = True, ""
                 self.by_path["scan_error:" + type(err).__name__] =\
                     self.by_path.get("scan_error:" + type(err).__name__, 0) + 1
+            if ok and self.violate and len(self.recent) < 6000:
+                try:
+                    self.recent.append((diagram, fingerprint(diagram), name))
+                except Exception:
+                    pass
             if not ok:
                 self.illtyped += 1
                 if self.violate:
@@ -77,11 +85,56 @@ class ConstructorMonitor:
         finally:
             self._depth -= 1
 
+    def end_of_case(self):
+        """
+        Histories: a diagram that was well-typed when it was built must still
+        be so at the end of the case (after generators that yielded it have
+        advanced, after it was used as an operand, ...).  Only values whose
+        cheap fingerprint changed are scanned again.
+        """
+        recent, self.recent = self.recent, []
+        self._depth += 1
+        try:
+            for diagram, before, name in recent:
+                self.rechecked += 1
+                try:
+                    now = fingerprint(diagram)
+                except Exception as err:
+                    now = "fingerprint raised " + type(err).__name__
+                if now == before:
+                    continue
+                self.changed_after_construction += 1
+                try:
+                    ok, why = well_typed(diagram)
+                except Exception as err:
+                    ok, why = False, "scan raised " + type(err).__name__
+                if not ok:
+                    self.ctx.fail(
+                        "L1-diagram-ill-typed-after-later-operations",
+                        reason=why, cls=name,
+                        fingerprint_at_construction=repr(before)[:300],
+                        fingerprint_now=repr(now)[:300],
+                        diagram=lambda: safe_repr(diagram))
+        finally:
+            self._depth -= 1
+
     def report(self):
         return {"constructions_checked": self.seen,
+                "rechecked_at_end_of_case": self.rechecked,
+                "changed_after_construction": self.changed_after_construction,
                 "illtyped_seen": self.illtyped,
                 "by_class": dict(sorted(self.by_class.items())),
                 "by_path": self.by_path}
+
+
+def fingerprint(diagram):
+    """
+    Cheap identity of a diagram's encoding (public accessors only).  dom/cod
+    are left out: subclasses (Tensor, CQMap, Functor images) legitimately
+    re-assign them after the base constructor has returned.
+    """
+    return (tuple(diagram.offsets), tuple(map(id, diagram.boxes)),
+            len(diagram.layers))
 
 
 def safe_repr(x, limit=1500):
